@@ -68,6 +68,8 @@ pub fn run(tier: &str, seed: u64, out: &Path) -> i32 {
     {
         let mut rng = Rng::new(seed ^ 0x5a9e);
         crate::shape_corr::shape_cases(&mut o, &mut rng, thorough);
+        crate::missed_corr::cases_c16(&mut o, &mut rng, thorough);
+        crate::budgets_corr::cases_c16(&mut o, &mut rng, thorough);
     }
     let progs = corpus::programs(&["tests/source", "tests/target"]);
     let progs: Vec<_> = progs.into_iter().filter(|p| p.src.len() < 40000).collect();
@@ -191,6 +193,35 @@ pub fn run(tier: &str, seed: u64, out: &Path) -> i32 {
         }
         push(&mut jobs, &mut names, "blank", &format!("blank{}", k), src, cfg);
     }
+    // K. option values at their extremes and contradictory pairs (every one is an accepted configuration)
+    {
+        const EXTREME: &[(&str, &[&str])] = &[
+            ("blank_lines_lower_bound", &["2", "3", "100"]), ("blank_lines_upper_bound", &["0", "100"]), ("comment_width", &["0", "1", "10000"]),
+            ("fn_call_width", &["0", "10000"]), ("attr_fn_like_width", &["0", "10000"]), ("struct_lit_width", &["0", "10000"]), ("struct_variant_width", &["0", "10000"]),
+            ("array_width", &["0", "10000"]), ("chain_width", &["0", "10000"]), ("single_line_if_else_max_width", &["0", "10000"]), ("single_line_let_else_max_width", &["0", "10000"]),
+            ("short_array_element_width_threshold", &["0", "10000"]), ("enum_discrim_align_threshold", &["10000"]), ("struct_field_align_threshold", &["10000"]),
+            ("inline_attribute_width", &["10000"]), ("doc_comment_code_block_width", &["0", "1", "10000"]), ("generated_marker_line_search_limit", &["0", "10000"]),
+            ("max_width", &["10000", "1000000"]), ("tab_spaces", &["1", "4"]), ("use_small_heuristics", &["Off", "Max"]),
+        ];
+        let small: Vec<&corpus::Program> = progs.iter().filter(|p| p.src.len() < 6000).collect();
+        for k in 0..(if thorough { 12000 } else { 2500 }) {
+            let (src, base): (String, Vec<(String, String)>) = match rng.below(4) {
+                0 => (blank_program(&mut rng), vec![]),
+                1 => { let dd = rng.range(1, 6); (nested_program(&mut rng, dd), vec![]) }
+                _ => { let p = *rng.pick(&small); (p.src.clone(), p.cfg.clone()) }
+            };
+            let mut cfg = base;
+            for _ in 0..rng.range(1, 3) {
+                let (key, vals) = *rng.pick(EXTREME);
+                cfg = merge_cfg(&cfg, &[(key.to_string(), rng.pick(vals).to_string())]);
+            }
+            if rng.chance(1, 4) {
+                let (a, b) = rng.pick(&singles).clone();
+                cfg = merge_cfg(&cfg, &[(a, b)]);
+            }
+            push(&mut jobs, &mut names, "extreme", &format!("extreme{}", k), src, cfg);
+        }
+    }
     // J. regression inputs of repaired crashes (corpus/c16_regress), default options and two option sets
     {
         let dir = if Path::new("corpus/c16_regress").exists() { std::path::PathBuf::from("corpus/c16_regress") } else { std::path::PathBuf::from("/verif/corpus/c16_regress") };
@@ -200,6 +231,7 @@ pub fn run(tier: &str, seed: u64, out: &Path) -> i32 {
             for f in fs {
                 if let Ok(src) = std::fs::read_to_string(&f) {
                     let name = f.file_name().unwrap().to_string_lossy().into_owned();
+                    push(&mut jobs, &mut names, "regress", &name, src.clone(), corpus::header_config(&src));
                     push(&mut jobs, &mut names, "regress", &name, src.clone(), vec![]);
                     push(&mut jobs, &mut names, "regress", &name, src.clone(), vec![("wrap_comments".into(), "true".into()), ("normalize_comments".into(), "true".into())]);
                     push(&mut jobs, &mut names, "regress", &name, src, vec![("max_width".into(), "20".into()), ("hard_tabs".into(), "true".into())]);
@@ -292,6 +324,67 @@ pub fn run(tier: &str, seed: u64, out: &Path) -> i32 {
                 }
             }
             o.direct_evals += 1;
+        }
+        // option handling of the binary: command lines and configuration files with values that are wrong, missing or odd; every one
+        // must end with status 0 or 1 (a usage or configuration error is an ordinary failure)
+        {
+            let d = out.join("opts");
+            let _ = std::fs::remove_dir_all(&d);
+            let _ = std::fs::create_dir_all(d.join("sub"));
+            let _ = std::fs::write(d.join("x.rs"), "fn  main( ){ }\n");
+            let _ = std::fs::write(d.join("sub/y.rs"), "fn  y( ){ }\n");
+            let tomls: &[&str] = &["", "file_lines = []\n", "file_lines = 3\n", "ignore = 3\n", "ignore = [\"[\"]\n", "max_width = \"abc\"\n", "max_width = -1\n", "max_width = 99999999999999999999\n", "tab_spaces = 1.5\n", "unknown_key = 1\n", "width_heuristics = 1\n", "emit_mode = \"Json\"\n", "verbose = \"Loud\"\n", "edition = \"1999\"\n", "style_edition = 2024\n", "required_version = \"x\"\n", "skip_macro_invocations = [1]\n", "skip_macro_invocations = \"*\"\n", "newline_style = []\n", "[section]\nmax_width = 1\n", "max_width = 50\nmax_width = 60\n", "\u{feff}max_width = 50\n", "max_width = 100 # c\n\n\n"];
+            let argvs: Vec<Vec<&str>> = vec![
+                vec!["--print-config", "current", "/"], vec!["--print-config", "current", "."], vec!["--print-config", "current", "nope/x.rs"], vec!["--print-config", "current", "x.rs"], vec!["--print-config", "current"],
+                vec!["--print-config", "default", "/"], vec!["--print-config", "minimal", "out.toml", "x.rs"], vec!["--print-config", "bogus"], vec!["--print-config"],
+                vec!["--config", "", "x.rs"], vec!["--config", "=", "x.rs"], vec!["--config", "a=", "x.rs"], vec!["--config", "=b", "x.rs"], vec!["--config", "max_width=abc", "x.rs"], vec!["--config", "max_width=50,", "x.rs"], vec!["--config", ",", "x.rs"], vec!["--config", "max_width=50=60", "x.rs"], vec!["--config", "file_lines=[]", "x.rs"], vec!["--config", "ignore=[]", "x.rs"], vec!["--config", "max_width=18446744073709551616", "x.rs"],
+                vec!["--file-lines", "[]", "x.rs"], vec!["--file-lines", "{}", "x.rs"], vec!["--file-lines", "[", "x.rs"], vec!["--file-lines", "[{\"file\":\"zzz.rs\",\"range\":[1,2]}]", "x.rs"], vec!["--file-lines", "[{\"file\":\"x.rs\",\"range\":[5,1]}]", "x.rs"], vec!["--file-lines", "[{\"file\":\"x.rs\",\"range\":[0,0]}]", "x.rs"], vec!["--file-lines", "[{\"file\":\"stdin\",\"range\":[1,1]}]"], vec!["--file-lines", "[{\"file\":\"x.rs\",\"range\":[1]}]", "x.rs"], vec!["--file-lines", "[{\"file\":3,\"range\":[1,2]}]", "x.rs"],
+                vec!["--edition", "1999", "x.rs"], vec!["--style-edition", "2030", "x.rs"], vec!["--emit", "nonsense", "x.rs"], vec!["--emit", "files", "--check", "x.rs"], vec!["--color", "x", "x.rs"], vec!["--help=bogus"], vec!["--help=config"], vec!["--help=file-lines"], vec!["-V"], vec!["--version", "x.rs"], vec!["-q", "-v", "x.rs"], vec!["--check", "-l", "--backup", "x.rs"],
+                vec!["--config-path", "nope.toml", "x.rs"], vec!["--config-path", "sub", "x.rs"], vec!["--config-path", "x.rs", "x.rs"], vec!["--config-path", "/", "x.rs"],
+                vec!["sub"], vec!["/"], vec![""], vec!["x.rs", "x.rs", "x.rs"], vec!["nope.rs", "x.rs"], vec!["-"], vec!["--", "x.rs"], vec!["--unstable-features", "--skip-children", "x.rs"], vec!["--error-on-unformatted", "x.rs"],
+            ];
+            let mut jobs2: Vec<(usize, usize)> = vec![];
+            for t in 0..tomls.len() {
+                for a in 0..argvs.len() {
+                    // every command line under the empty configuration; every configuration file under a few command lines
+                    if t == 0 || a == 3 || a == 16 || a % 17 == t % 17 {
+                        jobs2.push((t, a));
+                    }
+                }
+            }
+            let counter = std::sync::atomic::AtomicUsize::new(0);
+            let results: Vec<CliOut> = par_map(&jobs2, |(t, a)| {
+                let n = counter.fetch_add(1, std::sync::atomic::Ordering::SeqCst);
+                let w = d.join(format!("w{}", n));
+                let _ = std::fs::create_dir_all(w.join("sub"));
+                let _ = std::fs::write(w.join("x.rs"), "fn  main( ){ }\n");
+                let _ = std::fs::write(w.join("sub/y.rs"), "fn  y( ){ }\n");
+                if !tomls[*t].is_empty() {
+                    let _ = std::fs::write(w.join("rustfmt.toml"), tomls[*t]);
+                }
+                let mut cmd = Command::new(&bin);
+                cmd.current_dir(&w).env("HOME", &w).env("XDG_CONFIG_HOME", &w).args(&argvs[*a]);
+                let r = run_cmd(&mut cmd, b"fn  s( ){ }\n", Duration::from_secs(20));
+                let _ = std::fs::remove_dir_all(&w);
+                r
+            });
+            for ((t, a), c) in jobs2.iter().zip(results.iter()) {
+                if c.timed_out {
+                    o.count("opts:timeout");
+                    continue;
+                }
+                o.direct_evals += 1;
+                match c.code {
+                    Some(0) | Some(1) => o.count("opts:exit-0-or-1"),
+                    other => {
+                        o.count("opts:ABNORMAL");
+                        let first = c.stderr.lines().find(|l| l.contains("panicked")).unwrap_or("").to_string();
+                        let site = if first.contains("panicked at ") { site_fn(first.split("panicked at ").nth(1).unwrap_or("").trim_end_matches(':')) } else { "no-panic-message".to_string() };
+                        o.direct_failures.push(json!({"sig": format!("c16:cli-options:{:?}:{}", other, site), "what": format!("the rustfmt binary ended with status {:?} on a command line / configuration file with odd values: {}", other, first), "argv": argvs[*a], "rustfmt.toml": tomls[*t]}));
+                    }
+                }
+            }
+            let _ = std::fs::remove_dir_all(&d);
         }
         // enumerated probe F27: annotate-snippets (outside /repo) cuts a long reported line inside a
         // multi-byte character
